@@ -147,6 +147,25 @@ def random_network(rng, quick=True, force=None):
                 a, b = (name, other) if rev else (other, name)
                 spec["valves"].append({"name": ln, "start": a, "end": b, "diam": 0.3, "type": "TCV", "setting": _r(rng, 1, 50, 1),
                                        "minor_loss": rng.choice([0.0, 2.5])})
+    # the overflow flag ("always False for the WNTRSimulator": the limit controls must not depend on it)
+    for tk in spec["tanks"]:
+        if force.get("overflow", rng.random() < 0.25):
+            tk["overflow"] = True
+    # run / reset / edit a tank / rerun with the SAME simulator object (or, as control, a fresh one)
+    if force.get("rerun"):
+        edits = []
+        for tk in spec["tanks"]:
+            k = rng.choice(["min_level", "max_level", "elevation", "min_level", "max_level", "none"])
+            if k == "min_level" and tk["curve"] is None:
+                edits.append({"tank": tk["name"], "attr": "min_level", "value": round(tk["min"] + 0.7 * (tk["init"] - tk["min"]), 3)})
+            elif k == "max_level" and tk["curve"] is None:
+                edits.append({"tank": tk["name"], "attr": "max_level", "value": round(tk["max"] - 0.7 * (tk["max"] - tk["init"]), 3)})
+            elif k == "elevation":
+                edits.append({"tank": tk["name"], "attr": "elevation", "value": round(tk["elev"] + rng.choice([-1.5, 1.0, 2.0]), 2)})
+        if rng.random() < 0.4:
+            tk = rng.choice(spec["tanks"])
+            edits.append({"tank": tk["name"], "attr": "add_pipe", "value": rng.choice(jn), "name": "PNEW"})
+        spec["rerun"] = {"edits": edits, "fresh": rng.random() < 0.25}
     # tank leaks (C06 stream): Tank.add_leak with a window on or off the hydraulic grid; DD and PDD
     if force.get("leaks"):
         spec["options"]["demand_model"] = rng.choice(["DD", "PDD"])
@@ -328,6 +347,38 @@ def two_threshold_spec(curve=False, same_tank=True):
     return spec
 
 
+def overflow_spec(overflow=True):
+    """seeded/C06-6: a tank with the overflow flag driven to max_level: the max-level controls must still stop it"""
+    s = _base(3600, 4)
+    s["reservoirs"].append({"name": "R", "head": 45.0})
+    s["junctions"].append({"name": "J", "elev": 0.0, "demand": 0.0, "pattern": None})
+    s["tanks"].append({"name": "T", "elev": 20.0, "init": 3.0, "min": 0.5, "max": 5.0, "diam": 6.0, "curve": None, "overflow": overflow})
+    s["pipes"] += [{"name": "P1", "start": "R", "end": "J", "length": 200.0, "diam": 0.3, "rough": 100.0, "cv": False, "status": "OPEN"},
+                   {"name": "P2", "start": "J", "end": "T", "length": 200.0, "diam": 0.25, "rough": 100.0, "cv": False, "status": "OPEN"}]
+    return s
+
+
+def rerun_edit_spec(attr="min_level", fresh=False):
+    """seeded/C06-5: run, reset, edit a tank limit, run again with the SAME simulator object (fresh=True: control run)"""
+    s = _base(3600, 6)
+    s["reservoirs"].append({"name": "R", "head": 10.0})
+    s["junctions"].append({"name": "J", "elev": 0.0, "demand": 0.02, "pattern": None})
+    s["tanks"].append({"name": "T", "elev": 20.0, "init": 4.0, "min": 0.5, "max": 6.0, "diam": 8.0, "curve": None})
+    s["pipes"] += [{"name": "P1", "start": "R", "end": "J", "length": 2000.0, "diam": 0.1, "rough": 100.0, "cv": True, "status": "OPEN"},
+                   {"name": "P2", "start": "T", "end": "J", "length": 200.0, "diam": 0.25, "rough": 100.0, "cv": False, "status": "OPEN"}]
+    if attr == "max_level":
+        s["reservoirs"][0]["head"] = 45.0
+        s["junctions"][0]["demand"] = 0.0
+        s["pipes"][0].update({"length": 200.0, "diam": 0.3, "cv": False})
+        edit = {"tank": "T", "attr": "max_level", "value": 4.6}
+    elif attr == "elevation":
+        edit = {"tank": "T", "attr": "elevation", "value": 22.0}
+    else:
+        edit = {"tank": "T", "attr": "min_level", "value": 2.5}
+    s["rerun"] = {"edits": [edit], "fresh": fresh}
+    return s
+
+
 def tank_leak_spec(demand_model="DD"):
     """seeded/C08-6: a tank with a leak inside a window; the stored volume must follow (link inflow - leak) * dt"""
     s = _base(3600, 10)
@@ -445,7 +496,7 @@ def build_wn(wntr, spec, report="ALL"):
         wn.add_junction(j["name"], base_demand=j["demand"], demand_pattern=j["pattern"], elevation=j["elev"])
     for t in spec["tanks"]:
         wn.add_tank(t["name"], elevation=t["elev"], init_level=t["init"], min_level=t["min"], max_level=t["max"],
-                    diameter=t["diam"], vol_curve=t["curve"])
+                    diameter=t["diam"], vol_curve=t["curve"], overflow=bool(t.get("overflow", False)))
     for t in spec["tanks"]:
         if t.get("leak"):
             lk = t["leak"]
@@ -547,6 +598,26 @@ def run_instrumented(spec, report="ALL", wn=None, keep_wn=False):
 
     if wn is None:
         wn = build_wn(wntr, spec, report)
+    sim0 = None
+    if spec.get("rerun"):
+        import warnings as _w
+
+        sim0 = wntr.sim.WNTRSimulator(wn)
+        with _w.catch_warnings():
+            _w.simplefilter("ignore")
+            try:
+                sim0.run_sim()
+            except Exception:  # noqa -- the first run is only there to give the simulator object a history
+                pass
+        wn.reset_initial_values()
+        for e in spec["rerun"]["edits"]:
+            tk = wn.get_node(e["tank"])
+            if e["attr"] == "add_pipe":
+                if e["name"] not in wn.link_name_list:
+                    wn.add_pipe(e["name"], e["value"], e["tank"], length=150.0, diameter=0.2, roughness=100.0)
+            else:
+                setattr(tk, e["attr"], e["value"])
+        wn.reset_initial_values()
     tr = Trace()
     names = list(wn.link_name_list)
     tr.links = names
@@ -554,7 +625,7 @@ def run_instrumented(spec, report="ALL", wn=None, keep_wn=False):
     tr.tanks = {n: tank_params(t) for n, t in wn.tanks()}
     tr.tank_names = list(wn.tank_name_list)
     ids = {}
-    sim = wntr.sim.WNTRSimulator(wn)
+    sim = sim0 if (sim0 is not None and not spec["rerun"]["fresh"]) else wntr.sim.WNTRSimulator(wn)
     tr.htol, tr.qtol = float(sim._Htol), float(sim._Qtol)
 
     orig_upd = hyd.update_tank_heads
